@@ -88,6 +88,10 @@ def random_layers(rng, mods, rho=None):
     for i, g in enumerate(groups):
         if rng.random() < 0.3:
             rx = "(" + "|".join(re.escape(x) for x in g) + ")$"
+            deep = [m for m in mods if m.count(".") >= 2]
+            if deep and rng.random() < 0.5:
+                # an alternative that occurs only further right in some other module's name: a regex layer matches from the START of the name, so it selects nothing
+                rx += "|" + re.escape(".".join(rng.choice(deep).split(".")[-2:])) + "$"
             defs.append((f"L{i}", ("regex", rx)))
         else:
             defs.append((f"L{i}", ("names", g)))
@@ -308,17 +312,26 @@ def _c14l_case(seed):
     from .invariance import RHO_FREE, RHO_ADV, RHO_ADV2, rename, unrename_text
     rho_extra = {"z": "z", "e": "e"}
     rng = random.Random(seed)
-    mods = LTREE
+    mods = LTREE + ["r.a.y", "r.a.y.q", "r.b.w"]      # (two children under listed packages: the lookup walks over listed siblings)
     cand = [(a, c) for a in mods for c in mods if a != c and "." in a and "." in c and not a.startswith(c + ".") and not c.startswith(a + ".")]
     imports = rng.sample(cand, rng.randint(1, 6))
     defs = [d for d in random_layers(rng, mods) if d[1][0] == "names"]
     if len(defs) < 2:
         return []
+    if rng.random() < 0.6:
+        # a layer may also list a module that already belongs to it through a listed ancestor: membership is unchanged
+        i = rng.randrange(len(defs))
+        below = sorted(m for m in mods for x in defs[i][1][1] if m.startswith(x + "."))
+        if below:
+            defs[i] = (defs[i][0], ("names", defs[i][1][1] + [rng.choice(below)]))
     subject, obj = defs[0][0], defs[1][0]
     verb, acc, exc = rng.choice([(v, a, e) for v in ("should", "should_only", "should_not") for a in (True, False) for e in (False, True)])
     res = {}
-    for nm, rho0 in (("free", RHO_FREE), ("adv", RHO_ADV), ("adv2", RHO_ADV2)):
-        rho = {**rho0, "z": rho0.get("p", "z") + "z", "e": rho0.get("d", "e") + "e"}
+    # (the fourth naming reverses the alphabetical order of the components: sorted name lists come out in the opposite order)
+    RHO_REV = {"r": "r", "a": "y", "b": "x", "c": "w", "d": "v", "x": "c", "y": "b", "p": "a", "xy": "bb", "ab": "yy", "bc": "xx"}
+    res_names = ("free", "adv", "adv2", "rev")
+    for nm, rho0 in (("free", RHO_FREE), ("adv", RHO_ADV), ("adv2", RHO_ADV2), ("rev", RHO_REV)):
+        rho = {**rho0, "z": rho0.get("p", "z") + "z", "e": rho0.get("d", "e") + "e", "q": rho0.get("x", "q") + "q", "w": rho0.get("y", "w") + "w"}
         R = lambda m: rename(m, rho)
         arch = build_arch([R(m) for m in mods], [(R(a), R(c)) for a, c in imports])
         la = make_architecture([(n, ("names", [R(x) for x in v])) for n, (k, v) in defs])
@@ -341,7 +354,7 @@ def _c14l_case(seed):
                 res[nm] += (sorted((inv[k], shape(k, v)) for k, v in got["labels"].items()),)
             except Exception as e:
                 res[nm] += (type(e).__name__,)
-    if not (res["free"] == res["adv"] == res["adv2"]):
+    if not (res["free"] == res["adv"] == res["adv2"] == res["rev"]):
         return [dict(case="renaming-layers-labels", detail=f"layer verdict / message (with layer tags) / labels differ under injective renamings: {res}", input=dict(kind="c14l", seed=seed))]
     return []
 
